@@ -65,6 +65,14 @@ def identity(x):
     return x
 
 
+def _finished(awaitable):
+    """True for an awaitable that has already completed successfully"""
+    if awaitable is gen.moment:
+        return True
+    return (gen.is_future(awaitable) and awaitable.done()
+            and not awaitable.cancelled() and awaitable.exception() is None)
+
+
 class RefCounter:
     """ A counter to track references to data
 
@@ -453,13 +461,31 @@ class Stream(APIRegisterMixin):
             r = downstream.update(x, who=self, metadata=metadata)
 
             if type(r) is list:
-                result.extend(r)
+                pending = [element for element in r if element is not None]
             else:
-                result.append(r)
+                pending = [] if r is None else [r]
 
-            self._release_refs(metadata)
+            if (pending and self.loop and any('ref' in m for m in metadata)
+                    and not all(_finished(p) for p in pending)):
+                # the downstream has not finished with x yet: keep its
+                # references until the awaitables it handed back are done
+                # (and for good if they fail)
+                pending = [self._release_refs_when_done(pending, metadata)]
+            else:
+                self._release_refs(metadata)
+            result.extend(pending)
 
-        return [element for element in result if element is not None]
+        return result
+
+    def _release_refs_when_done(self, awaitables, metadata):
+        future = gen.convert_yielded(awaitables)
+
+        def release(f):
+            if not f.cancelled() and f.exception() is None:
+                self._release_refs(metadata)
+
+        future.add_done_callback(release)
+        return future
 
     def emit(self, x, asynchronous=False, metadata=None):
         """ Push data into the stream at this point
